@@ -91,6 +91,12 @@ def run(chk, tier, seed):
                                                              ["type", "--binary", "BIG"], ["list", "BIG"], ["dump", "BIG"], ["dump-sector", "0", "1", "1"],
                                                              ["show-titles"], ["help"], ["help", "cat"], ["--help"], ["--ui", "watford", "cat"])]
         cmds.append(("basic", [bas, prog]))
+        # several input files: a failure while listing one must survive the listing of the next (OutStream.tla: bounds)
+        empty = os.path.join(scratch, "empty.bbc")
+        open(empty, "wb").write(bc.prog("6502", []))
+        cmds.append(("basic", [bas, prog, empty]))
+        cmds.append(("basic", [bas, empty, prog, empty, empty]))
+        cmds.append(("basic", [bas, prog, prog]))
         cmds.append(("basic", [bas, "--help"]))
         cmds.append(("basic", [bas, "--dialect", "help", prog]))
         # OutStream_cold.cfg's counterexample: an untested write is the one that overflows the buffer and nothing is buffered after it.
@@ -120,6 +126,8 @@ def run(chk, tier, seed):
                 for listo in (0, 1, 7):
                     pth = listing_of_length(4096 * m + r, listo, "%d_%d_%d" % (m, r, listo))
                     aligned.append(("basic", [bas, "--listo=%d" % listo, pth]))
+                    if r == 1:
+                        aligned.append(("basic", [bas, "--listo=%d" % listo, pth, empty]))
         jobs = []
         for tool, argv in cmds + aligned:
             rc, err, L = run_limited(argv, None, scratch, "full")
